@@ -98,6 +98,7 @@ type Run struct {
 	violations map[string]bool
 	deadline   time.Time
 	harnessErr []string
+	expired    atomic.Bool
 	shardOut   string // child process of a sharded run: results are dumped here instead of evidence/VIOLATION lines
 	childViol  []partialViol
 }
@@ -126,13 +127,16 @@ func NewRun(t testing.TB, id, level string) *Run {
 		}
 	}
 	r.deadline = r.start.Add(budget)
+	// The flag is set by a timer created here, outside any synctest bubble: inside a bubble time.Now is virtual
+	// and would never reach the deadline.
+	time.AfterFunc(budget, func() { r.expired.Store(true) })
 	r.shardOut = os.Getenv("VERIF_SHARD_OUT")
 	return r
 }
 
 // OutOfBudget reports whether the internal wall-clock budget is used up. A check that stops because of
 // it must call r.Capped(...) so that the evidence says exhaustive:false.
-func (r *Run) OutOfBudget() bool { return time.Now().After(r.deadline) }
+func (r *Run) OutOfBudget() bool { return r.expired.Load() }
 
 func (r *Run) Capped(what string) {
 	r.mu.Lock()
